@@ -58,6 +58,7 @@ type tapeFile struct {
 	Site     string          `json:"site"`
 	Stack    []string        `json:"stack,omitempty"`
 	PkgRel   string          `json:"pkg"`
+	FSPlan   []sym.FSOp      `json:"fs_plan,omitempty"`
 	Tape     []sym.TapeEntry `json:"tape"`
 }
 
@@ -333,7 +334,7 @@ func cmdCheck(prop, tier string, rest []string) int {
 		for i := range toReplay {
 			pv := &toReplay[i]
 			tf := tapeFile{Harness: pv.h.Func, Tier: tn, Property: prop, Kind: pv.v.Kind, ID: pv.v.ID, Key: pv.v.Key(), Msg: pv.v.Msg,
-				Site: pv.v.Site, Stack: pv.v.Stack, PkgRel: pv.h.PkgRel, Tape: pv.v.Tape}
+				Site: pv.v.Site, Stack: pv.v.Stack, PkgRel: pv.h.PkgRel, Tape: pv.v.Tape, FSPlan: pv.v.FSPlan}
 			b, _ := json.MarshalIndent(tf, "", " ")
 			pv.path = filepath.Join(dir, fmt.Sprintf("%s-%s-%d.json", pv.h.Func, tier, i))
 			os.WriteFile(pv.path, b, 0o644)
@@ -342,8 +343,12 @@ func cmdCheck(prop, tier string, rest []string) int {
 		for pkgRel, idxs := range byPkg {
 			// ordinary tapes in one process; alloc/hang tapes each in their own
 			var batch []string
+			fsWhy := map[string]string{}
 			for _, i := range idxs {
 				if toReplay[i].stubbed {
+					continue
+				}
+				if needsFSReplay(toReplay[i].v.FSPlan) {
 					continue
 				}
 				if k := toReplay[i].v.Kind; k == "assert" || k == "panic" {
@@ -365,8 +370,19 @@ func cmdCheck(prop, tier string, rest []string) int {
 				}
 			}
 			for _, i := range idxs {
+				if toReplay[i].stubbed || !needsFSReplay(toReplay[i].v.FSPlan) {
+					continue
+				}
+				rr, okk, why := replayFS(all, pkgRel, toReplay[i].path, toReplay[i].v.FSPlan)
+				if okk {
+					results[toReplay[i].path] = rr
+				}
+				fsWhy[toReplay[i].path] = why
+				raws[toReplay[i].path] = why
+			}
+			for _, i := range idxs {
 				k := toReplay[i].v.Kind
-				if k == "assert" || k == "panic" || toReplay[i].stubbed {
+				if k == "assert" || k == "panic" || toReplay[i].stubbed || needsFSReplay(toReplay[i].v.FSPlan) {
 					continue
 				}
 				to := 120 * time.Second
@@ -397,6 +413,9 @@ func cmdCheck(prop, tier string, rest []string) int {
 					why = "harness stubs environment functions (no native replay); counterexample re-executed concretely in the interpreter: confirmed=" + fmt.Sprint(pv.engineConfirmed)
 				} else if rep {
 					why += fmt.Sprintf(" (concrete re-execution in the interpreter confirmed=%v)", pv.engineConfirmed)
+				}
+				if w := fsWhy[pv.path]; w != "" {
+					why += " [traced replay: " + w + "]"
 				}
 				if rep {
 					fmt.Printf("VIOLATION property=%s replay=%s\n", prop, pv.path)
@@ -663,6 +682,15 @@ func isStubbed(h harnessRef) bool {
 			break
 		}
 		if inFn && strings.Contains(l, "// vh:stubbed") {
+			return true
+		}
+	}
+	return false
+}
+
+func needsFSReplay(plan []sym.FSOp) bool {
+	for _, op := range plan {
+		if op.Crash || op.Fault {
 			return true
 		}
 	}
